@@ -122,6 +122,8 @@ fn err_name<C: Cond>(e: &CrdtErr<C>) -> &'static str {
         GroupCrdtError::GroupCycle(..) => "GroupCycle",
         GroupCrdtError::ManagerGroupsNotAllowed(_) => "ManagerGroupsNotAllowed",
         GroupCrdtError::Resolver(_) => "Resolver",
+        GroupCrdtError::UnknownGroup(..) => "UnknownGroup",
+        GroupCrdtError::MissingDependencies(..) => "MissingDependencies",
         GroupCrdtError::StateChangeError(_, m) => match m {
             GroupMembershipError::AlreadyAdded(_) => "AlreadyAdded",
             GroupMembershipError::AlreadyRemoved(_) => "AlreadyRemoved",
